@@ -7,13 +7,20 @@ Local Open Scope N_scope.
 
 (* an oracle pair satisfying the two assumed laws: print the bit pattern in decimal *)
 Definition toy_fmt (b : N) : str := format_uint b.
-Definition toy_prs (v : str) : option N := if all_digits v then Some (dec_value v 0) else None.
+Definition toy_prs (v : str) : option N :=
+  if all_digits v then (if fin (dec_value v 0) then Some (dec_value v 0) else None) else None.
 
 Lemma toy_oracle_ok : oracle_ok toy_fmt toy_prs.
 Proof.
-  split; intros b _; unfold toy_fmt, toy_prs.
-  - destruct (format_uint_spec b) as [Hne [Hd Hv]]. rewrite (all_digits_true _ Hne Hd), Hv. reflexivity.
+  split; intros b Hb; unfold toy_fmt, toy_prs.
+  - destruct (format_uint_spec b) as [Hne [Hd Hv]]. rewrite (all_digits_true _ Hne Hd), Hv, Hb. reflexivity.
   - apply format_uint_plain.
+Qed.
+
+Lemma toy_prs_finite : forall v b, toy_prs v = Some b -> fin b = true.
+Proof.
+  intros v b H. unfold toy_prs in H. destruct (all_digits v); [|discriminate].
+  destruct (fin (dec_value v 0)) eqn:E; [|discriminate]. inversion H; subst. exact E.
 Qed.
 
 (* a document over several sections: multiplexed signals, an extended mux, comments, attributes
